@@ -35,6 +35,7 @@ def run(ctx):
     atab = json.load(open(os.path.join(os.path.dirname(os.path.dirname(os.path.dirname(os.path.abspath(__file__)))),
                                        "tables", "atomics.json")))
     ctx.step(common.atomic_floors, ctx, "C07.orders", sorted(atab["fields"]), floor=80)
+    ctx.step(mutable_state, ctx)
     ctx.step(c19.orders, ctx, "C07.tripline")
     ctx.step(c12.publish, ctx, "C07.publish")
     ctx.step(c05.register, ctx, "C07.publish-log")
@@ -42,3 +43,45 @@ def run(ctx):
     if ctx.tier == "thorough":
         from ..ircheck import cross_check
         ctx.step(cross_check, ctx, "C07.ir", REPO, (0, 1, 2, 3))
+
+
+def mutable_state(ctx):
+    """classes not in the guard table and not confined to one thread: a const member function (callable from any
+    thread by convention) must not write a plain mutable member without holding a lock"""
+    from ..engine import is_atomic_type, is_mutex_type, is_condvar_type, is_lock_carrier
+    from ..guards import field_refs, effective_access, READ_KINDS, locks_of
+    rid = "C07.mutable-state"
+    ctx.rule(rid, "const member functions of thread-shareable classes write no plain mutable member without a lock", floor=10)
+    fb, eng = ctx.fb, ctx.eng
+    tab = load_table("guards.json")["classes"]
+    conf = load_table("classes.json")["confined"]
+    seen = set()
+    for r in fb.records():
+        if r.is_lambda or r.tmpl in tab or r.tmpl in conf or not r.tmpl.startswith("gmlc::"):
+            continue
+        muts = [fl for fl in r.fields if fl.get("mutable") and not is_atomic_type(fl["type"]) and not is_mutex_type(fl["type"])
+                and not is_condvar_type(fl["type"]) and not is_lock_carrier(fl["type"])
+                and not fl["type"].startswith("gmlc::libguarded::")]
+        key = (r.tmpl, r.qname)
+        if key in seen:
+            continue
+        seen.add(key)
+        site = "%s:%d" % (r.file.replace(REPO + "/", ""), r.line)
+        if not muts:
+            ctx.ob(rid, True, site, "%s has no plain mutable member" % r.name, inst=r.qname)
+            continue
+        for f in fb.functions(rec=r.tmpl):
+            if f.recq != r.qname or not f.constm or f.kind in ("ctor", "dtor"):
+                continue
+            la = locks_of(eng, fb, f)
+            for st in field_refs(f, r.tmpl):
+                if st["m"]["name"] not in [m["name"] for m in muts]:
+                    continue
+                acc, user = effective_access(eng, f, st)
+                if acc in READ_KINDS:
+                    continue
+                pos = f.pos_of(st)
+                ok = pos is not None and bool(la.held_at(pos))
+                ctx.ob(rid, ok, f.loc(st), "%s::%s (mutable, not atomic) is written in const %s only under a lock"
+                       % (r.name, st["m"]["name"], f.name), "" if ok else "two threads calling this const function race on it",
+                       fn=f.label, inst=f.qname)
